@@ -3,6 +3,7 @@ package props
 import (
 	"bytes"
 	"fmt"
+	"math"
 	"sort"
 	"strings"
 
@@ -322,14 +323,14 @@ func modelAST(c c20Cfg) []string {
 // children rendered.
 func modelRender(c c20Cfg) string {
 	win := func(bit int) string {
-		best, name := 1<<30, ""
+		best, name := 0, ""
 		for _, k := range c.Comps {
-			if k.Script&bit != 0 && k.Prio < best {
+			if k.Script&bit != 0 && (name == "" || k.Prio < best) {
 				best, name = k.Prio, k.Name
 			}
 		}
-		if bit == 2 && best > 1000 {
-			return ""
+		if bit == 2 && name != "" && best > 1000 {
+			return "" // the built-in HTML renderer (1000) has the smaller value
 		}
 		return name
 	}
@@ -534,8 +535,27 @@ func runC20(r *core.Run) {
 		{"render", []string{"NR1", "NR2", "NR3"}, 3, []string{c20RenderDoc},
 			"node renderers registering a function for the probe kind Mid and/or for FencedCodeBlock (built-in HTML renderer at 1000); the output of a tree holding a fenced code block and three wrapper nodes of kinds Low < Mid < High (High above every registered kind; Low and High never registered) must show the smallest-priority function for each kind, and wrappers without a function skipped with their children rendered"},
 	}
+	type run struct {
+		g      group
+		pool   []int
+		suffix string
+	}
+	var runs []run
+	extreme := []int{math.MinInt, -7, 550, math.MaxInt}
 	for _, g := range groups {
-		s := r.Sub("priority-"+g.name, fmt.Sprintf("every subset of the probes %v × every injective priority assignment from %v × every registration order × channel pattern {all via WithParserOptions/WithRendererOptions, all via an Extender calling AddOptions, alternating} × every script vector × documents %q: %s", g.names, pool, g.docs, g.rule))
+		runs = append(runs, run{g, pool, ""})
+		ge := g
+		if len(ge.names) > 3 {
+			ge.names = ge.names[:3]
+			if g.name == "block" {
+				ge.names = []string{"BT1", "BF1", "BF2"}
+			}
+		}
+		runs = append(runs, run{ge, extreme, "-extreme-priorities"})
+	}
+	for _, rn := range runs {
+		g, pool := rn.g, rn.pool
+		s := r.Sub("priority-"+g.name+rn.suffix, fmt.Sprintf("every subset of the probes %v × every injective priority assignment from %v × every registration order × channel pattern {all via WithParserOptions/WithRendererOptions, all via an Extender calling AddOptions, alternating} × every script vector × documents %q: %s", g.names, pool, g.docs, g.rule))
 		var cfgs []c20Cfg
 		c20Enum(g.name, g.names, pool, g.scriptN, g.name == "render", func(c c20Cfg) { cfgs = append(cfgs, c) })
 		s.Planned = int64(len(cfgs) * len(g.docs))
